@@ -29,6 +29,58 @@ def judge(rec, price, ops):
     return []
 
 
+# ---- the statement handed to the extracted Coq judge (Spec/Judges.v exhaust_b <=> Exhausts, Properties/Tie.v
+# Tie_judge_exhaust*): one per MATCH call, from the listing before, the listing after, executed and remaining.
+
+def exhaust_stmt_ok(qty, before_vec, after_vec, executed, remaining):
+    """python restatement of Exhausts (Spec/Judges.v) on one call"""
+    shown = sum(gen.parse_order(x)["vis"] for x in gen.parse_list(before_vec))
+    return executed >= min(qty, shown) and (remaining == 0 or all(gen.parse_order(x)["vis"] == 0 for x in gen.parse_list(after_vec)))
+
+
+def statements(rec, price, ops):
+    """-> [(opindex, JUDGE query, text, verdict of the python restatement on exactly this statement)]"""
+    out, prev = [], None
+    for o in rec["ops"]:
+        I = o["I"]
+        if I in ("panic", "skipped", "timeout") or I.startswith("read="):
+            continue
+        d = lvl.kv(I.split(" || ")[0])
+        if o["op"].startswith("MATCH ") and prev is not None and "exec" in d and "vec" in d:
+            qty = int(o["op"].split(" ")[1])
+            py = exhaust_stmt_ok(qty, prev["vec"], d["vec"], int(d["exec"]), int(d["rem"]))
+            out.append((o["i"], "exhaust %d %s %s %s %s" % (qty, prev["vec"], d["vec"], d["exec"], d["rem"]),
+                        "`%s`: executed less than min(requested, displayed) or returned with quantity remaining while an order still displays quantity" % o["op"], py))
+        if "vec" in d and d.get("built", "ok") == "ok":
+            prev = d
+    return out
+
+
+_STMTS = []      # (price, ops, opindex, query, python verdict) of the statements judged in this run
+
+
+def coq_queries(rec, price, ops):
+    out = []
+    for (i, q, text, py) in statements(rec, price, ops):
+        _STMTS.append((price, ops, i, q, py))
+        out.append((i, q, text))
+    return out
+
+
+def judges_agree(ck, stmts, what):
+    """Obligation "python judge = Coq judge": the python restatement and the extracted judge give the same verdict on
+    every judged statement (a run is rejected if either rejects; a disagreement is a defect of the check itself)."""
+    verdicts = coq_judge([s[3] for s in stmts])
+    diff = [(s, v) for s, v in zip(stmts, verdicts) if bool(s[4]) != v]
+    ck.oblige("python judge = Coq judge (%s): same verdict on each of %d judged statements" % (what, len(stmts)),
+              not diff, "%d differ" % len(diff))
+    if diff:
+        (price, ops, i, q, py), v = diff[0]
+        ck.violation("judge_disagree", dict(kind="level-history", price=price, ops=ops, failing_op=i,
+                                            why="python judge says %s, extracted Coq judge says %s on: JUDGE %s" % (bool(py), v, q[:400])))
+    del stmts[:]
+
+
 def corr_filter(text):
     return any(k in text for k in ("transaction", " rem ", " exec ", "panic", "model=", "timeout", "nofuel", "listing"))
 
@@ -63,4 +115,5 @@ def make_cases(rng, tier):
 
 def run(tier, seed, replay=None):
     return run_property("C06", tier, seed, replay, make_cases=make_cases, judge=judge, corr_filter=corr_filter,
-                        nontrivial=lambda rec, price, ops: any(o.startswith("MATCH") for o in ops))
+                        nontrivial=lambda rec, price, ops: any(o.startswith("MATCH") for o in ops), coq_queries=coq_queries,
+                        extra_obligations=lambda ck: judges_agree(ck, _STMTS, "Exhausts, per match call"))
